@@ -322,6 +322,7 @@ func load() (*ssa.Program, []*packages.Package, map[string]*ssa.Function, error)
 		Mode:    packages.LoadAllSyntax,
 		Dir:     *repoDir,
 		Overlay: ov,
+		BuildFlags: []string{"-tags=verif"},
 		Env:     append(os.Environ(), "GOFLAGS=-mod=mod", "GOPROXY=off"),
 	}
 	initial, err := packages.Load(cfg, dirs...)
